@@ -37,7 +37,11 @@ func (s *Slice[T]) Unshift(elements ...T) int {
 	s.mu.Lock()
 	defer s.mu.Unlock()
 
-	s.elements = append(elements, s.elements...)
+	// Build the result in fresh storage: appending to the caller's slice would
+	// alias (or overwrite the spare capacity of) its backing array.
+	merged := make([]T, 0, len(elements)+len(s.elements))
+	merged = append(merged, elements...)
+	s.elements = append(merged, s.elements...)
 	return len(s.elements)
 }
 
